@@ -801,7 +801,8 @@ class Exec:
         try:
             for k, v in list(env.items()):
                 if isinstance(v, tuple) and len(v) == 2 and v[0] == "__default__":
-                    if isinstance(v[1], (ast.Call, ast.List, ast.Dict, ast.Set, ast.ListComp, ast.DictComp)):
+                    immutable_call = isinstance(v[1], ast.Call) and ast.unparse(v[1].func) in ("np.dtype", "numpy.dtype", "float", "int", "tuple", "frozenset", "np.float64", "np.float32", "np.int64")
+                    if isinstance(v[1], (ast.Call, ast.List, ast.Dict, ast.Set, ast.ListComp, ast.DictComp)) and not immutable_call:
                         # Python evaluates a default ONCE, at definition: a mutable default is state shared by every call
                         # that omits the argument.  Not modelled (a per-call evaluation would hide exactly that sharing).
                         raise OutOfSubset(f"mutable default argument {k}={ast.unparse(v[1])} of {f.qualname}: state shared between calls")
@@ -1294,6 +1295,14 @@ class Exec:
         havocked state (the contract using the loop must say how it treats them)."""
         if st.orelse:
             raise OutOfSubset("while ... else")
+        # `while True: body; if c: break` (test after the body): the same summary with the loop left when c holds after the body
+        do_while = None
+        if isinstance(st.test, ast.Constant) and st.test.value is True and st.body and isinstance(st.body[-1], ast.If) and not st.body[-1].orelse \
+                and len(st.body[-1].body) == 1 and isinstance(st.body[-1].body[0], ast.Break):
+            do_while = st.body[-1].test
+            st = ast.While(test=st.test, body=st.body[:-1], orelse=[])
+            ast.copy_location(st, do_while)
+            st.lineno = getattr(do_while, "lineno", 0)
         names = []
         for nd in ast.walk(st):
             if isinstance(nd, (ast.While, ast.For)) and nd is not st:
@@ -1310,9 +1319,10 @@ class Exec:
         if self.merge_mode:
             raise OutOfSubset("while loop inside a merged call")
         fr = self.frames[-1]
-        first = self.truth(self.eval(st.test))  # path split when symbolic: a run that never enters the loop is its own path
-        if not first:
-            return
+        if do_while is None:
+            first = self.truth(self.eval(st.test))  # path split when symbolic: a run that never enters the loop is its own path
+            if not first:
+                return
         hw0 = self.heap_writes
         key = len(self.ghost.setdefault("while_loops", []))
         havoc = {}
@@ -1329,11 +1339,14 @@ class Exec:
                 if sort == tm.I and not isinstance(v, T):
                     havoc[nm] = tm.var(f"{nm}@while{key}", tm.R)  # e.g. `fdum = 1` before a loop that assigns floats
                 fr.env[nm] = havoc[nm]
-        entry = self.eval(st.test)
-        if isinstance(entry, (bool, int, float)) and not isinstance(entry, T):
-            raise OutOfSubset("while condition does not depend on the loop state")
-        entry = tm.lift(entry) if entry.sort == tm.B else tm.ne(entry, tm.const(0))
-        self.pc.append(entry)
+        if do_while is None:
+            entry = self.eval(st.test)
+            if isinstance(entry, (bool, int, float)) and not isinstance(entry, T):
+                raise OutOfSubset("while condition does not depend on the loop state")
+            entry = tm.lift(entry) if entry.sort == tm.B else tm.ne(entry, tm.const(0))
+            self.pc.append(entry)
+        else:
+            entry = tm.TRUE
         self.loop_kinds.append("while")
         try:
             self.exec_block(st.body)
@@ -1342,10 +1355,12 @@ class Exec:
         if self.heap_writes != hw0:
             raise OutOfSubset("while loop body writes to the heap")
         post = {nm: fr.env.get(nm) for nm in names}
-        ex_ = self.eval(st.test)
+        ex_ = self.eval(st.test if do_while is None else do_while)
         if not isinstance(ex_, T):
             raise OutOfSubset("while condition is concrete after the body")
         ex_ = tm.lift(ex_) if ex_.sort == tm.B else tm.ne(ex_, tm.const(0))
+        if do_while is not None:
+            ex_ = tm.lnot(ex_)   # the loop is left when the break condition HOLDS
         self.pc.append(tm.lnot(ex_))
         self.ghost["while_loops"].append({"names": names, "havoc": havoc, "post": post, "entry": entry, "exit": tm.lnot(ex_), "lineno": st.lineno})
         from . import libmodels
